@@ -86,8 +86,8 @@ example : exec { code := (emitCode false (.cat (.lit 97) (.cat (.star (.alt (.li
 open YaraModel.ReVm YaraModel.ReEmit in
 /-- `vm_sound_partial`: soundness of the bytecode VM on emitted code for regular expressions built from literals, `.`,
     the escapes \w \W \s \S \d \D, the anchors ^ $ and the word boundaries \b \B, `.{n,m}`, concatenation, alternation,
-    `*` and `+` (greedy or lazy, nested in any way), bracket classes `[...]` — i.e. every node kind except counted repeats
-    `e{n,m}` of a non-dot body and the empty alternative.  For ALL such expressions, ALL buffers and start positions, byte
+    `*`, `+` and `?` (greedy or lazy, nested in any way), bracket classes `[...]` — i.e. every node kind except counted repeats
+    `e{n,m}` of a non-dot body other than `e?` and the empty alternative.  For ALL such expressions, ALL buffers and start positions, byte
     mode (ascii), any nocase / dot-all flags, exhaustive or first-match mode, WITH OR WITHOUT the scan mode of `matches`,
     forward code: every length L the Lean model of `yr_re_exec` reports on the code produced by the Lean model of
     `_yr_re_emit` ends a match of the expression inside the buffer that begins at the start position — or, in scan mode
@@ -95,8 +95,8 @@ open YaraModel.ReVm YaraModel.ReEmit in
     expression matches there).  `+` is emitted as in the fixed `_yr_re_emit` (52e6c09: the split jumps back to the first
     byte of the code for e), the scan-mode restart and ACTION_CONTINUE as in the fixed `yr_re_exec` (eeb23a8, b5b43d7).
     Both models are validated against the C functions on every generated case (real bytecode: C VM = Lean VM; emitted bytes
-    equal).  Full statement aimed at (not yet proved): also `e{n,m}` (REPEAT_START/END with the counter stack) and the empty
-    alternative, wide mode, backward code, and the converse inclusion (completeness, which needs the executed-split-set
+    equal).  Full statement aimed at (not yet proved): also `e{n,m}` beyond `e?` (REPEAT_START/END with the counter stack) and the
+    empty alternative, wide mode, backward code, and the converse inclusion (completeness, which needs the executed-split-set
     argument for ε-loops). -/
 theorem vm_sound_partial (r : Re) (hf : Frag r) (hsz : clen r < 32000) (buf : Bytes) (start : Nat) (hst : start ≤ buf.size)
     (fl : VmFlags) (hw : fl.wide = false) (hb : fl.backwards = false) (fuel : Nat) (m : Int) (c : List Nat)
@@ -125,8 +125,13 @@ open YaraModel.ReVm YaraModel.ReEmit in
 example : exec { code := (emitCode false (.cat (.star (.lit 120) true) .eol)).toArray, entry := 0, buf := "abc".toUTF8.data, start := 0, fl := { scan := true } } = .done 3 [] := by decide
 
 open YaraModel.ReVm YaraModel.ReEmit in
-/-- instance (the former finding C03-plus-backjump): `x((a|)b)+c` over `xbc` — the loop of `+` re-enters at the split of `(a|)`, the first byte of the body -/
-example : exec { code := (emitCode false (.cat (.lit 120) (.cat (.plus (.cat (.alt (.lit 97) .empty) (.lit 98)) true) (.lit 99)))).toArray, entry := 0, buf := "xbc".toUTF8.data, start := 0, fl := {} } = .done 3 [] := by decide
+/-- instance (the former finding C03-plus-backjump): `x(a?b)+c` over `xbc` — the loop of `+` re-enters at the split of `a?`,
+    the first byte of the body; the expression is inside the fragment of `vm_sound_partial` -/
+example : exec { code := (emitCode false (.cat (.lit 120) (.cat (.plus (.cat (.range (.lit 97) 0 1 true) (.lit 98)) true) (.lit 99)))).toArray, entry := 0, buf := "xbc".toUTF8.data, start := 0, fl := {} } = .done 3 [] := by decide
+
+open YaraModel.ReEmit in
+example : Frag (.cat (.lit 120) (.cat (.plus (.cat (.range (.lit 97) 0 1 true) (.lit 98)) true) (.lit 99))) :=
+  .cat (.lit _) (.cat (.plus _ (.cat (.opt _ (.lit _)) (.lit _))) (.lit _))
 
 open YaraModel.ReEmit in
 /-- the fragment is not empty: `\ba(b|c)*d+\B` -/
